@@ -7,16 +7,36 @@ GROUP = "Jwt"
 PKG = "internal/server/oauth"
 META = {
     "group": "Jwt",
-    "technique": "Coq proof by invariant over all histories (validate / revoke / clock advance / cache eviction / purge) of a Gallina model of ValidateJWT with the signature check as an oracle + vm_compute correspondence with the real ValidateJWT (real RSA/ECDSA keys, JWKS, SQLite revocation store, synctest clock)",
-    "text": "Theorems C22_accept_sound (after every history an accepted JWT uses an allowed algorithm, resolves to a published key, verifies, matches issuer and audience, has exp in the future and nbf passed, and its token ID is not revoked), C22_revocation_effective (from any cache content, after a revocation no later request with that token ID is accepted, seen before or not) and C22_accept_complete (a token satisfying every clause is accepted as its user) are proved over the model of the repaired code; C22_refuted_current keeps the defect of the code before the repair (revocation consulted only on a cache hit: revoke, then present a never-seen token -> accepted) as a witness. The model is compared with the real ValidateJWT on generated histories and the property is evaluated on the real outputs. full",
-    "note": "Trusted: Coq kernel; signature verification and kid lookup are oracle fields of a token (fixed per token string: static JWKS; key rotation and the JWKS refresh rate limit are not modelled); the revocation store answers without error (on a database error the code fails open) and revocations are never undone; user claim = sub; golang-jwt's claim validation as modelled (exp required, now < exp, nbf <= now, iss equality, aud membership) - tied by the correspondence; issuer configuration is never empty in resource-server mode (with Provider empty the code reloads the configuration from settings); the overlay harness and the Python comparison.",
+    "technique": "Coq proof by invariant over all histories (validate / revoke / clock advance / cache eviction / purge / JWKS rotation) of a Gallina model of ValidateJWT, key selection and the JWKS cache with the signature check as an oracle + vm_compute correspondence with the real ValidateJWT (real RSA/ECDSA keys, changing JWKS documents, SQLite revocation store, synctest clock)",
+    "text": "Theorems C22_accept_sound (after every history an accepted JWT uses an allowed algorithm, matches issuer and audience, has exp in the future and nbf passed, its token ID is not revoked, and either it is a result-cache hit or its intact signature was made with the material the cached key set holds for its kid - first key without kid - that set being younger than the JWKS TTL when a kid is named), C22_keys_from_last_fetch (the cached key set is always exactly the usable keys of the document the IdP served at the most recent successful fetch: withdrawn keys are not carried over), C22_revocation_effective (from any cache content, after a revocation no later request with that token ID is accepted, seen before or not) and C22_accept_complete are proved over the model of the repaired code; C22_refuted_current keeps the defect of the code before the repair (revocation consulted only on a cache hit) as a witness. The model (including when the JWKS is re-fetched: no key cached, older than the TTL, unknown kid unless refreshed < 30 s ago) is compared with the real ValidateJWT on generated histories with key rotations, and the property is evaluated on the real outputs by an independent reference simulation. full",
+    "note": "Trusted: Coq kernel; signature verification is an oracle (verifies iff the selected key is the signing material and the signed bytes are intact); a result-cache hit is not re-verified (its guarantee is that of the step that cached it; entries live until exp); tokens without kid use the first cached key and never trigger a re-fetch while any key is cached; JWKS fetches succeed unless the document has no usable key; the revocation store answers without error (on a database error the code fails open) and revocations are never undone; user claim = sub; golang-jwt's claim validation as modelled (exp required, now < exp, nbf <= now, iss equality, aud membership) - tied by the correspondence; issuer configuration is never empty in resource-server mode; the overlay harness and the Python comparison.",
 }
 ISS = "https://idp.example"
 AUD = "ego-api"
 ALGS = {"RS256": "RS256", "RS384": "RS384", "RS512": "RS512", "ES256": "ES256", "HS256": "HS256", "PS256": "PS256",
         "EdDSA": "EdDSA", "none": "NoneAlg"}
-PUBLISHED = {"k-rsa": "rsa", "k-ec": "ec"}     # signing keys in the JWKS, in document order (k-enc has use=enc, k-oct is not RSA/EC)
-KEYTYPE = {"k-rsa": "rsa", "x-rsa": "rsa", "k-enc": "rsa", "k-ec": "ec", "x-ec": "ec"}
+MATS = {"k-rsa": 1, "x-rsa": 2, "k-enc": 3, "k-ec": 4, "x-ec": 5, "e3": 6, "oct": 7}     # key material -> number in the model
+KEYTYPE = {"k-rsa": "rsa", "x-rsa": "rsa", "k-enc": "rsa", "k-ec": "ec", "x-ec": "ec", "e3": "ec"}
+
+
+def J(kid, mat, use="sig"):
+    return {"kid": kid, "mat": mat, "use": use}
+
+
+DOC0 = [J("k-enc", "k-enc", "enc"), J("k-rsa", "k-rsa"), J("k-ec", "k-ec"), J("k-oct", "oct")]
+ROT_DOCS = [
+    [J("k2", "x-rsa"), J("k-ec", "k-ec")],                       # k-rsa withdrawn, a new RSA key under a new kid
+    [J("k-rsa", "x-rsa"), J("k-ec", "k-ec")],                    # kid reused with different key material
+    [J("k-ec", "k-ec"), J("k-rsa", "k-rsa")],                    # order changed: the first key is now the EC key
+    [J("k-enc", "k-enc", "enc"), J("k-oct", "oct")],             # no usable key: the fetch fails, cached keys stay
+    [J("k-rsa", "k-rsa"), J("k-ec", "k-ec"), J("k3", "e3")],     # a key added
+    [J("k3", "e3")],                                             # everything withdrawn, one new key
+    [J("k-rsa", "k-rsa", ""), J("k-ec", "x-ec")],                # use absent; EC kid reused
+]
+
+
+def usable(doc):
+    return [(k["kid"], k["mat"]) for k in doc if k["use"] in ("", "sig") and k["mat"] != "oct"]
 
 
 def base_token(n):
@@ -107,34 +127,171 @@ def mutate(t, m, rng):
     return t
 
 
-def selected_key(t):
-    if t["kid"] == "":
-        return "k-rsa"          # first usable signing key of the JWKS document
-    return t["kid"] if t["kid"] in PUBLISHED else None
-
-
 def alg_family(a):
     return {"RS256": "rsa", "RS384": "rsa", "RS512": "rsa", "ES256": "ec"}.get(a)
-
-
-def crypto(t):
-    """(alg allowed, key found, signature verifies) by construction of the token."""
-    allowed = alg_family(t["alg"]) is not None
-    sel = selected_key(t)
-    found = sel is not None
-    sig = bool(found and allowed and sel == t["signer"] and KEYTYPE[sel] == alg_family(t["alg"]) and not t["tamper"])
-    return allowed, found, sig
 
 
 def user_of(t):
     return t["sub"] or (("client:" + t["client"]) if t["client"] else "")
 
 
-def good_at(t, aud_cfg, now):
-    """the property's acceptance condition, stated on the token's construction (independent of the model)."""
-    allowed, found, sig = crypto(t)
-    return (allowed and found and sig and t["iss"] == ISS and (aud_cfg == "" or aud_cfg in t["aud"])
-            and t["exp"] is not None and now < t["exp"] and (t["nbf"] is None or t["nbf"] <= now))
+class Sim:
+    """Independent statement of what ValidateJWT may accept, as a small reference implementation: the key set
+    Ego trusts is the one most recently fetched; a fetch is due when no key is cached, when the set is older
+    than the TTL (tokens naming a kid), or on an unknown kid unless such a fetch happened < 30 s ago."""
+
+    def __init__(self, h):
+        self.h = h
+        self.now = 0
+        self.rcache = {}
+        self.revoked = set()
+        self.pub = h["docs"][0]
+        self.jw = []
+        self.fetched_at = 0
+        self.fetched_doc = None
+        self.miss_last = None
+        self.why = ""
+
+    def refresh(self):
+        ks = usable(self.pub)
+        if not ks:
+            return False
+        self.jw, self.fetched_at, self.fetched_doc = ks, self.now, self.pub
+        return True
+
+    def find(self, kid):
+        for k, m in self.jw:
+            if k == kid:
+                return m
+        return None
+
+    def select(self, t):
+        if alg_family(t["alg"]) is None:
+            self.why = "algorithm %s not allowed" % t["alg"]
+            return None
+        kid = t["kid"]
+        if kid == "":
+            if not self.jw and not self.refresh():
+                self.why = "no usable key published"
+                return None
+            return self.jw[0][1]
+        if self.jw and self.now - self.fetched_at < self.h["jwks_ttl"]:
+            m = self.find(kid)
+            if m is not None:
+                return m
+            if self.miss_last is not None and self.now - self.miss_last < 30:
+                self.why = "kid %r unknown (refresh rate-limited)" % kid
+                return None
+            self.miss_last = self.now
+        if not self.refresh():
+            self.why = "JWKS fetch failed (no usable key published)"
+            return None
+        m = self.find(kid)
+        if m is None:
+            self.why = "kid %r is not in the key set fetched at t=%d: %s" % (kid, self.fetched_at, self.jw)
+        return m
+
+    def claims(self, t):
+        if t["iss"] != ISS:
+            return "issuer %r" % t["iss"]
+        if self.h["aud"] and self.h["aud"] not in t["aud"]:
+            return "audience %r" % t["aud"]
+        if t["exp"] is None or self.now >= t["exp"]:
+            return "exp %r at now=%d" % (t["exp"], self.now)
+        if t["nbf"] is not None and t["nbf"] > self.now:
+            return "nbf %r at now=%d" % (t["nbf"], self.now)
+        return ""
+
+    def validate(self, i):
+        """returns (code, user, was it a result-cache hit)"""
+        t = self.h["tokens"][i]
+        self.why = ""
+        e = self.rcache.get(i)
+        if e is not None:
+            if self.now < e[0]:
+                if e[1] and e[1] in self.revoked:
+                    del self.rcache[i]
+                    self.why = "token ID %r revoked" % e[1]
+                    return 2, "", True
+                return 1, e[2], True
+            del self.rcache[i]
+        m = self.select(t)
+        if m is None:
+            return 0, "", False
+        if m != t["signer"] or t["tamper"]:
+            self.why = ("payload changed after signing" if t["tamper"] else
+                        "signed with %s but the key set fetched at t=%d (%s) holds %s for kid %r" % (t["signer"], self.fetched_at, self.jw, m, t["kid"]))
+            return 0, "", False
+        c = self.claims(t)
+        if c:
+            self.why = c
+            return 0, "", False
+        if t["jti"] and t["jti"] in self.revoked:
+            self.why = "token ID %r revoked" % t["jti"]
+            return 2, "", False
+        if not user_of(t):
+            self.why = "no user claim"
+            return 0, "", False
+        self.rcache[i] = (t["exp"], t["jti"], user_of(t))
+        return 1, user_of(t), False
+
+    def op(self, o):
+        if o[0] == "R":
+            self.revoked.add(o[1])
+        elif o[0] == "T":
+            self.now += o[1]
+        elif o[0] == "X":
+            self.rcache.pop(o[1], None)
+        elif o[0] == "P":
+            self.rcache.clear()
+        elif o[0] == "K":
+            self.pub = self.h["docs"][o[1]]
+
+
+def fix_signer(t):
+    if alg_family(t["alg"]) == "ec" and KEYTYPE.get(t["signer"]) != "ec":
+        t["signer"] = "k-ec"            # a token can only be signed with a key of its algorithm's family
+    if t["alg"] in ("RS256", "RS384", "RS512", "PS256") and KEYTYPE.get(t["signer"]) != "rsa":
+        t["signer"] = "k-rsa"
+    return t
+
+
+ROT_TOKENS = [("RS256", "k-rsa", "k-rsa"), ("RS256", "k-rsa", "k-rsa"), ("RS256", "x-rsa", "k2"), ("RS256", "x-rsa", "k-rsa"),
+              ("ES256", "k-ec", "k-ec"), ("ES256", "e3", "k3"), ("RS256", "k-rsa", ""), ("ES256", "k-ec", ""), ("RS256", "k-rsa", "k2"),
+              ("ES256", "x-ec", "k-ec"), ("RS512", "x-rsa", ""), ("ES256", "e3", "")]
+
+
+def gen_rotation_history(rng, hid, quick):
+    """histories in which the IdP changes its JWKS: keys withdrawn, added, kids reused, order changed."""
+    docs = [DOC0] + rng.sample(ROT_DOCS, rng.randint(1, 3))
+    if rng.random() < 0.2:
+        docs[0], docs[1] = docs[1], docs[0]
+    toks = []
+    for i in range(rng.randint(3, 6)):
+        t = base_token(hid * 10 + i)
+        a, sg, kid = rng.choice(ROT_TOKENS)
+        t.update(alg=a, signer=sg, kid=kid)
+        if rng.random() < 0.2:
+            t = fix_signer(mutate(t, rng.choice(["exp-90", "nojti", "client-only", "exp-30", "aud-multi-good", "tamper"]), rng))
+        toks.append(t)
+    nt = len(toks)
+    ops = []
+    for _ in range(rng.randint(6, 16 if quick else 30)):
+        r = rng.random()
+        if r < 0.5:
+            ops.append(["V", rng.randrange(nt)])
+        elif r < 0.65:
+            ops.append(["K", rng.randrange(len(docs))])
+        elif r < 0.83:
+            ops.append(["T", rng.choice([1, 5, 29, 30, 31, 59, 60, 61, 119, 120, 121, 600, 3599, 3600, 3601])])
+        elif r < 0.9:
+            ops.append(["R", rng.choice(toks)["jti"] or "jti-unrelated"])
+        elif r < 0.96:
+            ops.append(["X", rng.randrange(nt)])
+        else:
+            ops.append(["P"])
+    return {"id": hid, "iss": ISS, "aud": rng.choice([AUD, AUD, ""]), "ttl": "1000h", "jwks_ttl": rng.choice([3600, 3600, 120, 60]),
+            "docs": docs, "tokens": toks, "ops": ops}
 
 
 def gen_history(rng, hid, quick, ttl="1000h"):
@@ -144,11 +301,7 @@ def gen_history(rng, hid, quick, ttl="1000h"):
         t = base_token(hid * 10 + i)
         for _ in range(rng.choice([1, 1, 1, 2])):
             t = mutate(t, rng.choice(MUTS), rng)
-        if alg_family(t["alg"]) == "ec" and KEYTYPE[t["signer"]] != "ec":
-            t["signer"] = "k-ec"            # a token can only be signed with a key of its algorithm's family
-        if t["alg"] in ("RS256", "RS384", "RS512", "PS256") and KEYTYPE[t["signer"]] != "rsa":
-            t["signer"] = "k-rsa"
-        toks.append(t)
+        toks.append(fix_signer(t))
     if nt >= 2 and rng.random() < 0.3:
         toks[1]["jti"] = toks[0]["jti"]          # two different strings sharing a token ID
     ops = []
@@ -165,7 +318,7 @@ def gen_history(rng, hid, quick, ttl="1000h"):
             ops.append(["X", rng.randrange(nt)])
         else:
             ops.append(["P"])
-    return {"id": hid, "iss": ISS, "aud": rng.choice([AUD, AUD, ""]), "ttl": ttl, "tokens": toks, "ops": ops}
+    return {"id": hid, "iss": ISS, "aud": rng.choice([AUD, AUD, ""]), "ttl": ttl, "jwks_ttl": 3600, "docs": [DOC0], "tokens": toks, "ops": ops}
 
 
 def corpus():
@@ -173,8 +326,9 @@ def corpus():
     ec = mutate(base_token(2), "es256", None)
     hs = []
 
-    def add(ops, toks=None, aud=AUD, ttl="1000h"):
-        hs.append({"id": len(hs), "iss": ISS, "aud": aud, "ttl": ttl, "tokens": toks or [t0, t1, ec], "ops": ops})
+    def add(ops, toks=None, aud=AUD, ttl="1000h", docs=None, jwks_ttl=3600):
+        hs.append({"id": len(hs), "iss": ISS, "aud": aud, "ttl": ttl, "jwks_ttl": jwks_ttl, "docs": docs or [DOC0],
+                   "tokens": toks or [t0, t1, ec], "ops": ops})
 
     add([["R", "jti-0"], ["V", 0], ["V", 0], ["V", 0], ["V", 1]])                    # witness of C22_refuted_current
     add([["V", 0], ["R", "jti-0"], ["V", 0], ["V", 0], ["V", 0]])                    # hit -> revoked+evicted -> miss
@@ -183,6 +337,15 @@ def corpus():
     add([["V", 2], ["R", "jti-2"], ["T", 61], ["V", 2], ["T", 61], ["V", 2]], ttl="")  # real sweeper evicts the entry
     add([["V", 0], ["T", 3599], ["V", 0], ["T", 1], ["V", 0], ["V", 1]])              # expiry while cached
     add([["V", 0], ["V", 1], ["V", 2], ["V", 0], ["V", 1], ["V", 2]], aud="")
+    # key rotation: A = k-rsa is withdrawn (replaced by x-rsa under kid k2); once Ego has re-fetched, a NEW token signed
+    # with the withdrawn key must be refused (a0, a1: two different tokens signed with A; b: signed with the new key)
+    a0, a1, b = base_token(3), base_token(4), dict(base_token(5), signer="x-rsa", kid="k2")
+    rot = [DOC0, ROT_DOCS[0], ROT_DOCS[1], ROT_DOCS[5]]
+    add([["V", 0], ["K", 1], ["V", 2], ["T", 31], ["V", 1], ["V", 0], ["X", 0], ["V", 0]], toks=[a0, a1, b], docs=rot)       # re-fetch on unknown kid
+    add([["V", 0], ["K", 1], ["T", 3600], ["V", 1], ["V", 0], ["P"], ["V", 0]], toks=[a0, a1, b], docs=rot)                    # re-fetch on TTL expiry
+    add([["V", 0], ["K", 1], ["V", 2], ["V", 1], ["T", 29], ["V", 1], ["T", 1], ["V", 1]], toks=[a0, a1, b], docs=rot)       # 30 s refresh rate limit
+    add([["V", 0], ["K", 2], ["T", 120], ["V", 1], ["V", 0]], toks=[a0, a1, b], docs=rot, jwks_ttl=120)                        # kid reused, other material
+    add([["V", 0], ["K", 3], ["T", 61], ["V", 1], ["V", 2]], toks=[a0, a1, dict(base_token(6), alg="ES256", signer="e3", kid="k3")], docs=rot, jwks_ttl=60)
     return hs
 
 
@@ -194,11 +357,16 @@ def vstr(s):
 
 
 def coq_token(t):
-    allowed, found, sig = crypto(t)
     b = lambda x: "true" if x else "false"
     oz = lambda x: "None" if x is None else "(Some (%d))" % x
-    return "mkT %s %s %s %s [%s] %s %s %s %s %s" % (ALGS[t["alg"]], b(found), b(sig), vstr(t["iss"]), "; ".join(vstr(a) for a in t["aud"]),
-                                                    oz(t["exp"]), oz(t["nbf"]), vstr(t["jti"]), vstr(t["sub"]), vstr(t["client"]))
+    return "mkT %s %s %d %s %s [%s] %s %s %s %s %s" % (ALGS[t["alg"]], vstr(t["kid"]), MATS.get(t["signer"], 0), b(not t["tamper"]), vstr(t["iss"]),
+                                                       "; ".join(vstr(a) for a in t["aud"]), oz(t["exp"]), oz(t["nbf"]), vstr(t["jti"]),
+                                                       vstr(t["sub"]), vstr(t["client"]))
+
+
+def coq_doc(doc):
+    return "[" + "; ".join("mkK %s %d %s" % (vstr(k["kid"]), MATS[k["mat"]], "true" if (k["use"] in ("", "sig") and k["mat"] != "oct") else "false")
+                           for k in doc) + "]"
 
 
 def coq_ops(ops):
@@ -212,6 +380,8 @@ def coq_ops(ops):
             out.append("Advance %d" % o[1])
         elif o[0] == "X":
             out.append("Evict %d" % o[1])
+        elif o[0] == "K":
+            out.append("Rotate d%d" % o[1])
         else:
             out.append("Purge")
     return "[" + "; ".join(out) + "]"
@@ -219,26 +389,31 @@ def coq_ops(ops):
 
 def run(ck):
     quick = ck.tier == "quick"
-    ck.cov["rule"] = ("histories over 2-5 JWTs built from a valid RS256 token by 1-2 mutations out of %d (algorithms RS256/384/512 ES256 HS256-key-confusion "
+    ck.cov["rule"] = ("histories over 2-6 JWTs built from a valid RS256 token by 1-2 mutations out of %d (algorithms RS256/384/512 ES256 HS256-key-confusion "
                       "none PS256 EdDSA; forged/mismatched/missing/unknown/non-signing kid; tampered payload; iss/aud/exp/nbf/jti/sub variations; shared "
-                      "jti), ops validate/revoke/advance clock/evict/purge; corpus first (witness of C22_refuted_current). distinct_nontrivial = distinct "
-                      "(token fields, revoked?, cached?-agnostic) validations of a token that is accepted at some point of its history and validated "
-                      "again after a revocation, eviction, purge or clock advance" % len(set(MUTS)))
-    ck.assume("signature verification and kid lookup are oracle fields fixed per token string (static JWKS; rotation / refresh rate limit not modelled)",
+                      "jti), ops validate/revoke/advance clock/evict/purge; 40%% of the histories also rotate the JWKS (key withdrawn, added, kid reused "
+                      "with other material, order changed, document without usable key; JWKS TTL 60/120/3600 s); corpus first (witness of "
+                      "C22_refuted_current, withdrawn-key scenarios). distinct_nontrivial = distinct (token fields, revoked?) validations of a token "
+                      "that is accepted at some point of its history and validated again after a revocation, eviction, purge, rotation or clock advance" % len(set(MUTS)))
+    ck.assume("signature verification is an oracle: verifying with the selected key succeeds iff that key is the material that signed the token and the signed bytes are intact",
+              "a JWKS fetch itself succeeds (HTTP 200, well-formed); a document without usable keys is the modelled failure",
               "the revocation store answers without error and revocations are never undone (tokens.Delete is an administrator action outside the property)",
-              "ego.server.oauth.user.claim = sub; ego.server.oauth.provider is non-empty in resource-server mode")
-    ck.trusted("harness/C22/c22_test.go (in-package overlay: test keys, in-process JWKS transport, SQLite blacklist, synctest clock), props/C22.py generators and comparison",
+              "ego.server.oauth.user.claim = sub; ego.server.oauth.provider is non-empty in resource-server mode; JWKS cache TTL > 0")
+    ck.trusted("harness/C22/c22_test.go (in-package overlay: test keys, in-process JWKS transport with changing documents, SQLite blacklist, synctest clock), props/C22.py generators, reference simulation and comparison",
                "correspondence evaluated by vm_compute in a generated cases file")
-    ck.coq_stage(GROUP, theorems=["C22_accept_sound", "C22_revocation_effective", "C22_accept_complete", "C22_refuted_current"])
+    ck.coq_stage(GROUP, theorems=["C22_accept_sound", "C22_keys_from_last_fetch", "C22_revocation_effective", "C22_accept_complete", "C22_refuted_current"])
 
     ok, binp = vf.go_test_build(ck.work, PKG, {PKG + "/zz_verif_c22_test.go": os.path.join(vf.HARNESS, "C22", "c22_test.go")}, "c22.test")
     if not ok:
         ck.violation("harness-build", "harness for %s does not build:\n%s" % (PKG, binp[-1500:]), replay={"log": binp[-3000:]}, found_input=False)
         return
     hs = corpus()
-    n = 90 if quick else 1500
+    n = 110 if quick else 1500
     while len(hs) < n:
-        hs.append(gen_history(ck.rng, len(hs), quick, ttl="" if ck.rng.random() < 0.15 else "1000h"))
+        if ck.rng.random() < 0.4:
+            hs.append(gen_rotation_history(ck.rng, len(hs), quick))
+        else:
+            hs.append(gen_history(ck.rng, len(hs), quick, ttl="" if ck.rng.random() < 0.2 else "1000h"))
     if ck.replay_file:
         rp = json.load(open(ck.replay_file))["replay"]
         if isinstance(rp, dict) and "history" in rp:
@@ -251,73 +426,72 @@ def run(ck):
         return
     res = {r["id"]: r for r in json.load(open(outp))}
 
-    # ---------------- property oracle on the real outputs (independent of the Coq model)
+    # ---------------- property oracle on the real outputs (reference simulation, independent of the Coq model)
     nontriv = set()
     oracle_hit = False
-    nval = nacc = nrev = nclass = 0
-    mutdist = {}
+    nval = nacc = nrev = nclass = nhit = nfetch = 0
+    withdrawn_refused = 0
     for h in hs:
         r = res[h["id"]]
         if r.get("err"):
             ck.violation("harness-case", "harness: %s" % r["err"], replay={"history": h}, found_input=False)
             continue
-        now, revoked, k = 0, set(), 0
+        sim = Sim(h)
+        k = 0
         seen_ok, disturbed = set(), set()
         for o in h["ops"]:
-            if o[0] == "R":
-                revoked.add(o[1])
+            if o[0] != "V":
+                sim.op(o)
                 disturbed |= seen_ok
-            elif o[0] == "T":
-                now += o[1]
-                disturbed |= seen_ok
-            elif o[0] in ("X", "P"):
-                disturbed |= seen_ok
-            elif o[0] == "V":
-                t = h["tokens"][o[1]]
-                code, user = r["codes"][k], r["users"][k]
-                k += 1
-                nval += 1
-                g = good_at(t, h["aud"], now)
-                rev = t["jti"] != "" and t["jti"] in revoked
-                want = 0 if not g else (2 if rev else (1 if user_of(t) else 0))
-                what = None
-                if code == 1:
-                    nacc += 1
-                    if rev and g:
-                        what = ("revoked-token-accepted", "a JWT whose token ID %r was revoked earlier in the history was accepted" % t["jti"])
-                    elif not g:
-                        allowed, found, sig = crypto(t)
-                        why = ("algorithm %s not allowed" % t["alg"] if not allowed else "kid %r is not a published signing key" % t["kid"] if not found
-                               else "signature does not verify" if not sig else "issuer %r" % t["iss"] if t["iss"] != ISS
-                               else "audience %r" % t["aud"] if h["aud"] and h["aud"] not in t["aud"] else "exp %r at now=%d" % (t["exp"], now)
-                               if t["exp"] is None or now >= t["exp"] else "nbf %r at now=%d" % (t["nbf"], now))
-                        what = ("invalid-token-accepted", "a JWT was accepted although: " + why)
-                    elif user != user_of(t):
-                        what = ("wrong-user", "accepted as user %r, token names %r" % (user, user_of(t)))
-                    if o[1] in disturbed:
-                        nontriv.add((json.dumps(t, sort_keys=True), rev))
-                    seen_ok.add(o[1])
-                elif want == 1:
-                    what = ("valid-token-refused", "a JWT satisfying every clause (not revoked) was refused with class %d" % code)
-                elif code != want:
-                    nclass += 1          # refusal class (revoked vs other) differs: informational, not part of the property
-                if code == 2:
-                    nrev += 1
-                if what:
-                    oracle_hit = True
-                    ck.violation(what[0], "%s; token %s; history ops %s (V = validate, R = revoke, T = advance seconds, X = evict, P = purge), validation #%d" % (
-                        what[1], json.dumps(t), json.dumps(h["ops"]), k), replay={"history": h})
-        for t in h["tokens"]:
-            allowed, found, sig = crypto(t)
-            key = ("alg-ok" if allowed else "alg-bad") + ("/key" if found else "/nokey") + ("/sig" if sig else "/badsig")
-            mutdist[key] = mutdist.get(key, 0) + 1
+                continue
+            t = h["tokens"][o[1]]
+            code, user = r["codes"][k], r["users"][k]
+            k += 1
+            nval += 1
+            f0 = sim.fetched_at if sim.jw else None
+            want, wuser, washit = sim.validate(o[1])
+            nhit += washit
+            nfetch += (sim.fetched_at if sim.jw else None) != f0
+            what = None
+            if code == 1:
+                nacc += 1
+                if want == 2:
+                    what = ("revoked-token-accepted", "a JWT whose token ID %r was revoked earlier in the history was accepted" % t["jti"])
+                elif want == 0:
+                    sig = "unpublished-key-accepted" if ("key set" in sim.why or "kid" in sim.why or "JWKS" in sim.why or "usable" in sim.why) else "invalid-token-accepted"
+                    what = (sig, "a JWT was accepted although: " + sim.why)
+                elif user != wuser:
+                    what = ("wrong-user", "accepted as user %r, token names %r" % (user, wuser))
+                if o[1] in disturbed:
+                    nontriv.add((json.dumps(t, sort_keys=True), t["jti"] in sim.revoked))
+                seen_ok.add(o[1])
+            elif want == 1:
+                what = ("valid-token-refused", "a JWT satisfying every clause (not revoked, %s) was refused with class %d" % (
+                    "result-cache hit" if washit else "signed with the key the most recently fetched key set holds for its kid", code))
+            elif code != want:
+                nclass += 1          # refusal class (revoked vs other) differs: informational, not part of the property
+            if code != 1 and "key set fetched" in sim.why and sim.fetched_doc is not None and sim.fetched_doc is not h["docs"][0]:
+                withdrawn_refused += 1
+            if code == 2:
+                nrev += 1
+            if what:
+                oracle_hit = True
+                ck.violation(what[0], "%s; token %s; JWKS documents %s; history ops %s (V = validate, R = revoke, T = advance seconds, X = evict, P = purge, "
+                             "K i = the IdP publishes document i; JWKS TTL %d s), validation #%d" % (
+                                 what[1], json.dumps(t), json.dumps([usable(d) for d in h["docs"]]), json.dumps(h["ops"]), h["jwks_ttl"], k), replay={"history": h})
+                break
     ck.cov["evaluations"] = nval
     ck.cov["distinct_nontrivial"] = len(nontriv)
-    ck.cov["input_distribution"] = {"histories": len(hs), "validations": nval, "accepted": nacc, "refused_as_revoked": nrev, "refusal_class_differs_from_oracle": nclass,
-                                    "real_sweeper_histories": sum(1 for h in hs if not h["ttl"]), "audience_unchecked": sum(1 for h in hs if not h["aud"]),
-                                    "tokens_by_crypto_class": mutdist, "jwks_fetches": sum(r.get("fetches", 0) for r in res.values())}
-    for h in hs[:2] + hs[10:12]:
-        ck.sample({"ops": h["ops"], "tokens": [{k: v for k, v in t.items() if k in ("alg", "signer", "kid", "exp", "jti")} for t in h["tokens"]],
+    ck.cov["input_distribution"] = {"histories": len(hs), "validations": nval, "accepted": nacc, "refused_as_revoked": nrev,
+                                    "refusal_class_differs_from_oracle": nclass, "result_cache_hits": nhit,
+                                    "rotation_histories": sum(1 for h in hs if len(h["docs"]) > 1),
+                                    "rotations": sum(1 for h in hs for o in h["ops"] if o[0] == "K"),
+                                    "jwks_successful_fetches_in_reference_simulation": nfetch, "jwks_fetches_observed": sum(r.get("fetches", 0) for r in res.values()),
+                                    "refused_because_key_not_in_refetched_set": withdrawn_refused,
+                                    "real_sweeper_histories": sum(1 for h in hs if not h["ttl"]), "audience_unchecked": sum(1 for h in hs if not h["aud"])}
+    for h in hs[:2] + hs[7:9] + hs[20:21]:
+        ck.sample({"ops": h["ops"], "docs": [usable(d) for d in h["docs"]],
+                   "tokens": [{k: v for k, v in t.items() if k in ("alg", "signer", "kid", "exp", "jti")} for t in h["tokens"]],
                    "codes": res[h["id"]].get("codes"), "users": res[h["id"]].get("users")})
 
     # ---------------- correspondence with the model
@@ -328,20 +502,23 @@ def run(ck):
                          replay={"broken": "coq/" + grp, "log": log[-3000:]}, found_input=False)
         return
     L = ["From Common Require Import Base.", "From Jwt Require Import Model.", "Open Scope Z_scope.",
-         "Definition dflt := mkT NoneAlg false false [] [] None None [] [] [].",
+         "Definition dflt := mkT NoneAlg [] 0 false [] [] None None [] [] [].",
          "Fixpoint nl_eqb (a b : list N) : bool := match a, b with [], [] => true | x :: a', y :: b' => N.eqb x y && nl_eqb a' b' | _, _ => false end.",
          "Fixpoint sl_eqb (a b : list str) : bool := match a, b with [], [] => true | x :: a', y :: b' => str_eqb x y && sl_eqb a' b' | _, _ => false end.",
-         "Record hcase := HC { hc : config; ht : list token; ho : list op; hcodes : list N; husers : list str }.",
-         "Definition hc_ok (c : hcase) : bool := let o := outcomes true (hc c) (tok_table (ht c) dflt) (ho c) (init 0) in nl_eqb (map (fun x => N.min 1 (outcome_code x mod 2)) o) (hcodes c) && sl_eqb (map outcome_user o) (husers c).",
-         "Definition hc_old_differs (c : hcase) : bool := negb (nl_eqb (map (fun x => N.min 1 (outcome_code x mod 2)) (outcomes false (hc c) (tok_table (ht c) dflt) (ho c) (init 0))) (hcodes c)).",
+         "Record hcase := HC { hc : config; hd0 : list jwk; ht : list token; ho : list op; hcodes : list N; husers : list str }.",
+         "Definition acc (x : outcome) : N := match x with Accept _ => 1%N | _ => 0%N end.",
+         "Definition hc_ok (c : hcase) : bool := let o := outcomes true (hc c) (tok_table (ht c) dflt) (ho c) (init 0 (hd0 c)) in nl_eqb (map acc o) (hcodes c) && sl_eqb (map outcome_user o) (husers c).",
+         "Definition hc_old_differs (c : hcase) : bool := negb (nl_eqb (map acc (outcomes false (hc c) (tok_table (ht c) dflt) (ho c) (init 0 (hd0 c)))) (hcodes c)).",
          "Fixpoint idx {A} (f : A -> bool) (i : nat) (l : list A) : list nat := match l with [] => [] | x :: r => (if f x then [] else [i]) ++ idx f (S i) r end."]
     cs, cmap = [], []
     for h in hs:
         r = res[h["id"]]
         if r.get("err"):
             continue
-        cs.append("HC (mkC %s %s) [%s] %s %s [%s]" % (vstr(h["iss"]), vstr(h["aud"]), "; ".join(coq_token(t) for t in h["tokens"]), coq_ops(h["ops"]),
-                                                      vf.vN([1 if c == 1 else 0 for c in r["codes"]]) if r["codes"] else "[]", "; ".join(vstr(u) for u in (r["users"] or []))))
+        docs = " ".join("(let d%d := %s in" % (i, coq_doc(d)) for i, d in enumerate(h["docs"]))
+        cs.append("%s HC (mkC %s %s %d) d0 [%s] %s %s [%s]%s" % (
+            docs, vstr(h["iss"]), vstr(h["aud"]), h["jwks_ttl"], "; ".join(coq_token(t) for t in h["tokens"]), coq_ops(h["ops"]),
+            vf.vN([1 if c == 1 else 0 for c in r["codes"]]) if r["codes"] else "[]", "; ".join(vstr(u) for u in (r["users"] or [])), ")" * len(h["docs"])))
         cmap.append(h)
     L.append("Definition cases : list hcase := [\n" + ";\n".join(cs) + "].")
     okc, ev = vf.coq_eval(GROUP, ck.work, "cases", "\n".join(L), {"BAD": "idx hc_ok 0 cases",
@@ -354,5 +531,5 @@ def run(ck):
     if not oracle_hit:
         for i in ev["BAD"][:5]:
             h = cmap[i]
-            ck.violation("corr-history", "model and implementation disagree on history %s: real codes %s users %s" % (
-                json.dumps(h["ops"]), res[h["id"]]["codes"], res[h["id"]]["users"]), replay={"history": h}, found_input=False)
+            ck.violation("corr-history", "model and implementation disagree on history %s (docs %s): real codes %s users %s" % (
+                json.dumps(h["ops"]), json.dumps([usable(d) for d in h["docs"]]), res[h["id"]]["codes"], res[h["id"]]["users"]), replay={"history": h}, found_input=False)
